@@ -118,22 +118,79 @@ enum { A_ENC, A_ENC_CLEAN, A_DEC, A_DEC_CLEAN, A_REC, A_NEED, A_META, A_ISINV, A
 static const char *ANAME[] = { "encode", "encode_cleanup", "decode", "decode_cleanup", "reconstruct", "fragments_needed",
     "get_fragment_metadata", "is_invalid_fragment", "verify_stripe_metadata", "sizes", "destroy", "create_nullargs", "backend_available" };
 
-/* descriptor classes: 0 live, 1 never issued, 2 destroyed, 3 zero, 4 negative */
+/* descriptor classes: 0 live, 1 never issued, 2 destroyed, 3 zero, 4 negative,
+   5 / 6 used by the calling thread and then destroyed by another thread (caller: a second thread / the main thread) */
 static int desc_of(int cls, int live) {
     switch (cls) { case 0: return live; case 1: return live + 100000; case 2: return -4242; case 3: return 0; default: return -1; }
 }
 
+/* the first `len` bytes of each fragment, on a page that ends at an unmapped one: a call that is given
+   fragment_len = len must not look beyond */
+static char **short_guarded(char **frags, int n, size_t len) {
+    char **out = malloc(sizeof(char *) * (n > 0 ? n : 1));
+    for (int i = 0; i < n; i++) {
+        unsigned char *map = mmap(NULL, 8192, PROT_READ | PROT_WRITE, MAP_PRIVATE | MAP_ANONYMOUS, -1, 0);
+        out[i] = (char *)map + 4096 - len;
+        memcpy(out[i], frags[i], len);
+        mprotect(map + 4096, 4096, PROT_NONE);
+    }
+    return out;
+}
+
+static void run_args_inner(args_a *a, FILE *out, int forced_desc);
+#include <pthread.h>
+#include <semaphore.h>
+typedef struct { args_a *a; FILE *out; int desc; sem_t go, used; } xthread_t;
+static void *xthread_user(void *vx) {
+    xthread_t *x = vx;
+    (void)liberasurecode_get_fragment_size(x->desc, 100);       /* a successful use of the descriptor on this thread */
+    { char **ed = NULL, **ep = NULL; uint64_t fl = 0; unsigned char b[40] = { 1, 2, 3 };
+      if (liberasurecode_encode(x->desc, (char *)b, 40, &ed, &ep, &fl) == 0) liberasurecode_encode_cleanup(x->desc, ed, ep); }
+    sem_post(&x->used);
+    sem_wait(&x->go);                                            /* ... the other thread destroys it ... */
+    run_args_inner(x->a, x->out, x->desc);                       /* and this thread calls in again */
+    return NULL;
+}
+static void *xthread_destroyer(void *vx) { xthread_t *x = vx; liberasurecode_instance_destroy(x->desc); return NULL; }
+
 static void run_args(void *va, FILE *out) {
     args_a *a = va;
+    if (a->a[0] == 5 || a->a[0] == 6) {
+        /* a descriptor that was live, was used by the calling thread, and has been destroyed by ANOTHER thread
+           (5: the caller is a second thread, the main thread destroys; 6: the caller is the main thread) */
+        struct ec_args ar; memset(&ar, 0, sizeof ar); ar.k = a->c.k; ar.m = a->c.m; ar.hd = a->c.hd; ar.ct = CHKSUM_NONE;
+        xthread_t x; x.a = a; x.out = out; sem_init(&x.go, 0, 0); sem_init(&x.used, 0, 0);
+        x.desc = liberasurecode_instance_create((ec_backend_id_t)a->c.be, &ar);
+        pthread_t t;
+        if (a->a[0] == 5) {
+            pthread_create(&t, NULL, xthread_user, &x);
+            sem_wait(&x.used);
+            liberasurecode_instance_destroy(x.desc);
+            sem_post(&x.go);
+            pthread_join(t, NULL);
+        } else {
+            (void)liberasurecode_get_fragment_size(x.desc, 100);
+            { char **ed = NULL, **ep = NULL; uint64_t fl = 0; unsigned char b[40] = { 1, 2, 3 };
+              if (liberasurecode_encode(x.desc, (char *)b, 40, &ed, &ep, &fl) == 0) liberasurecode_encode_cleanup(x.desc, ed, ep); }
+            pthread_create(&t, NULL, xthread_destroyer, &x); pthread_join(t, NULL);
+            run_args_inner(a, out, x.desc);
+        }
+        return;
+    }
+    run_args_inner(a, out, 0);
+}
+
+static void run_args_inner(args_a *a, FILE *out, int forced_desc) {
     stripe_t *s = a->s;
     int live = s->desc;
-    int dead;
-    { /* a descriptor that was live and has been destroyed */
+    int dead = -4242;
+    if (!forced_desc) { /* a descriptor that was live and has been destroyed (not in the cross-thread classes: nothing else
+                           may be looked up between the other thread's destroy and the call under test) */
         struct ec_args ar; memset(&ar, 0, sizeof ar); ar.k = 2; ar.m = 1; ar.hd = 1; ar.ct = CHKSUM_NONE;
         dead = liberasurecode_instance_create(EC_BACKEND_LIBERASURECODE_RS_VAND, &ar);
         liberasurecode_instance_destroy(dead);
     }
-    int d = a->a[0] == 2 ? dead : desc_of(a->a[0], live);
+    int d = forced_desc ? forced_desc : (a->a[0] == 2 ? dead : desc_of(a->a[0], live));
     int rc = 12345;
     switch (a->api) {
     case A_ENC: {
@@ -153,8 +210,10 @@ static void run_args(void *va, FILE *out) {
     case A_DEC: {
         char *od = NULL; uint64_t ol = 0;
         int n = a->a[4] == 0 ? s->n : (a->a[4] == 1 ? 0 : (a->a[4] == 2 ? -1 : s->c.k - 1));
-        uint64_t fl = a->a[5] == 0 ? s->flen : (a->a[5] == 1 ? 0 : (a->a[5] == 2 ? 79 : 1));
-        rc = liberasurecode_decode(d, a->a[1] ? NULL : s->all, n, fl, a->a[6], a->a[2] ? NULL : &od, a->a[3] ? NULL : &ol);
+        uint64_t fl = a->a[5] == 0 ? s->flen : (a->a[5] == 1 ? 0 : (a->a[5] == 2 ? 79 : (a->a[5] == 3 ? 1 : (a->a[5] == 4 ? 70 : (a->a[5] == 5 ? 1 : 40)))));
+        char **fr = s->all;
+        if (a->a[5] >= 4) { fr = short_guarded(s->all, s->n, fl); if (g_progress) snprintf(g_progress, 200, "in decode with fragment_len=%llu and buffers of exactly that size", (unsigned long long)fl); }
+        rc = liberasurecode_decode(d, a->a[1] ? NULL : fr, n, fl, a->a[6], a->a[2] ? NULL : &od, a->a[3] ? NULL : &ol);
         if (rc == 0) liberasurecode_decode_cleanup(d, od);
         break; }
     case A_DEC_CLEAN: {
@@ -165,9 +224,11 @@ static void run_args(void *va, FILE *out) {
     case A_REC: {
         char *of = malloc(s->flen + 64);
         int n = a->a[3] == 0 ? s->n - 1 : (a->a[3] == 1 ? 0 : -1);
-        uint64_t fl = a->a[4] == 0 ? s->flen : (a->a[4] == 1 ? 0 : 79);
+        uint64_t fl = a->a[4] == 0 ? s->flen : (a->a[4] == 1 ? 0 : (a->a[4] == 2 ? 79 : (a->a[4] == 3 ? 70 : 1)));
         int dest = a->a[5] == 0 ? 0 : (a->a[5] == 1 ? -1 : (a->a[5] == 2 ? s->n : 0x7fffffff));
-        rc = liberasurecode_reconstruct_fragment(d, a->a[1] ? NULL : s->all + 1, n, fl, dest, a->a[2] ? NULL : of);
+        char **fr = s->all + 1;
+        if (a->a[4] >= 3) { fr = short_guarded(s->all + 1, s->n - 1, fl); if (g_progress) snprintf(g_progress, 200, "in reconstruct with fragment_len=%llu and buffers of exactly that size", (unsigned long long)fl); }
+        rc = liberasurecode_reconstruct_fragment(d, a->a[1] ? NULL : fr, n, fl, dest, a->a[2] ? NULL : of);
         free(of);
         break; }
     case A_NEED: {
@@ -218,41 +279,48 @@ void suite_args(int tier) {
         args_a a; memset(&a, 0, sizeof a); a.c = cfgs[ci]; a.s = &s;
         /* encode: desc class x data NULL x ed NULL x ep NULL x flen NULL */
         a.api = A_ENC;
-        for (int d = 0; d < 5; d++) for (int m = 0; m < 16; m++) {
+        for (int d = 0; d < 7; d++) for (int m = 0; m < 16; m++) {
+            if (d >= 5 && m) continue;
             a.a[0] = d; a.a[1] = m & 1; a.a[2] = (m >> 1) & 1; a.a[3] = (m >> 2) & 1; a.a[4] = (m >> 3) & 1;
             args_emit(&a, 5);
         }
         a.api = A_ENC_CLEAN;
-        for (int d = 0; d < 5; d++) for (int z = 0; z < 2; z++) { a.a[0] = d; a.a[1] = z; args_emit(&a, 2); }
+        for (int d = 0; d < 7; d++) for (int z = 0; z < 2; z++) { a.a[0] = d; a.a[1] = z; args_emit(&a, 2); }
         /* decode: desc x frags NULL x out NULL x outlen NULL x count class x length class x force */
         a.api = A_DEC;
-        for (int d = 0; d < 5; d++) for (int m = 0; m < 8; m++) for (int nc = 0; nc < 4; nc++) for (int lc = 0; lc < 4; lc++) {
+        for (int d = 0; d < 7; d++) for (int m = 0; m < 8; m++) for (int nc = 0; nc < 4; nc++) for (int lc = 0; lc < 7; lc++) {
+            if (d >= 5 && (m || nc || lc)) continue;
             if (!tier && d > 0 && (nc + lc) % 2) continue;
+            if (lc >= 4 && (m & 1)) continue;       /* truly short buffers only make sense with a fragment array */
             a.a[0] = d; a.a[1] = m & 1; a.a[2] = (m >> 1) & 1; a.a[3] = (m >> 2) & 1; a.a[4] = nc; a.a[5] = lc; a.a[6] = (m + nc) & 1;
             if (a.a[1] == 0 && lc == 3) continue;   /* length 1 with real buffers: same branch as 79 */
             args_emit(&a, 7);
         }
         a.api = A_DEC_CLEAN;
-        for (int d = 0; d < 5; d++) for (int z = 0; z < 2; z++) { a.a[0] = d; a.a[1] = z; args_emit(&a, 2); }
+        for (int d = 0; d < 7; d++) for (int z = 0; z < 2; z++) { a.a[0] = d; a.a[1] = z; args_emit(&a, 2); }
         /* reconstruct: desc x frags NULL x out NULL x count class x length class x destination class */
         a.api = A_REC;
-        for (int d = 0; d < 5; d++) for (int m = 0; m < 4; m++) for (int nc = 0; nc < 3; nc++) for (int lc = 0; lc < 3; lc++) for (int dc = 0; dc < 4; dc++) {
+        for (int d = 0; d < 7; d++) for (int m = 0; m < 4; m++) for (int nc = 0; nc < 3; nc++) for (int lc = 0; lc < 5; lc++) for (int dc = 0; dc < 4; dc++) {
+            if (d >= 5 && (m || nc || lc || dc)) continue;
             if (!tier && d > 0 && (nc + lc + dc) % 3) continue;
+            if (lc >= 3 && (m & 1)) continue;
             a.a[0] = d; a.a[1] = m & 1; a.a[2] = (m >> 1) & 1; a.a[3] = nc; a.a[4] = lc; a.a[5] = dc;
             args_emit(&a, 6);
         }
         a.api = A_NEED;
-        for (int d = 0; d < 5; d++) for (int m = 0; m < 8; m++) { a.a[0] = d; a.a[1] = m & 1; a.a[2] = (m >> 1) & 1; a.a[3] = (m >> 2) & 1; args_emit(&a, 4); }
+        for (int d = 0; d < 7; d++) for (int m = 0; m < 8; m++) {
+            if (d >= 5 && m) continue; a.a[0] = d; a.a[1] = m & 1; a.a[2] = (m >> 1) & 1; a.a[3] = (m >> 2) & 1; args_emit(&a, 4); }
         a.api = A_META;
         for (int m = 0; m < 4; m++) { a.a[0] = 0; a.a[1] = m & 1; a.a[2] = (m >> 1) & 1; args_emit(&a, 3); }
         a.api = A_ISINV;
-        for (int d = 0; d < 5; d++) for (int z = 0; z < 2; z++) { a.a[0] = d; a.a[1] = z; args_emit(&a, 2); }
+        for (int d = 0; d < 7; d++) for (int z = 0; z < 2; z++) { a.a[0] = d; a.a[1] = z; args_emit(&a, 2); }
         a.api = A_STRIPE;
-        for (int d = 0; d < 5; d++) for (int z = 0; z < 2; z++) for (int nc = 0; nc < 3; nc++) { a.a[0] = d; a.a[1] = z; a.a[2] = nc; args_emit(&a, 3); }
+        for (int d = 0; d < 7; d++) for (int z = 0; z < 2; z++) for (int nc = 0; nc < 3; nc++) {
+            if (d >= 5 && (z || nc)) continue; a.a[0] = d; a.a[1] = z; a.a[2] = nc; args_emit(&a, 3); }
         a.api = A_SIZES;
-        for (int d = 0; d < 5; d++) { a.a[0] = d; args_emit(&a, 1); }
+        for (int d = 0; d < 7; d++) { a.a[0] = d; args_emit(&a, 1); }
         a.api = A_DESTROY;
-        for (int d = 0; d < 5; d++) { a.a[0] = d; args_emit(&a, 1); }
+        for (int d = 0; d < 7; d++) { a.a[0] = d; args_emit(&a, 1); }
         if (ci == 0) {
             a.api = A_CREATE_NULL;
             int ids[] = { 0, 3, 6, 8, 9, 10, 255, -1 };
@@ -300,9 +368,10 @@ void suite_args(int tier) {
 /* ======================================================================= hist (C14) */
 /*
  * One history per line:  hist <preset> <op>;<op>;...   with ops
- *   c<slot>:<be>:<k>:<m>:<hd>   create into slot        -> descriptor or error code
+ *   c<slot>:<be>:<k>:<m>:<hd>[:<w>]  create into slot (optionally asking for word size w) -> descriptor or error code
  *   d<slot>                      destroy slot's value    -> rc        (also works on dead values: refused)
  *   u<slot>                      encode+decode round trip through slot's descriptor -> 0 / error code
+ *   D<slot> U<slot> Q<slot>      the same as d / u / q, executed on a second (persistent) thread
  *   q<slot>                      fragment-size query     -> value / error
  *   f<slot>                      failed create (unsupported XOR shape) into slot -> error code
  *   n:<value>                    overwrite the exported counter next_backend_desc (so that the counter runs into
@@ -312,21 +381,53 @@ void suite_args(int tier) {
 #define SLOTS 4
 typedef struct { int nops; char ops[64][40]; int preset; } hist_t;
 
+/* the descriptor-taking operations; lower-case letters run them on the main thread, upper-case ones on a second,
+   persistent thread (a destroyed descriptor is unknown to every thread, whoever used it last) */
+static const unsigned char HDATA[29] = { 3,14,25,36,47,58,69,80,91,102,113,124,135,146,157,168,179,190,201,212,223,234,245,0,11,22,33,44,55 };
+static int hist_do(char kind, int desc, cfg_t cf) {
+    int res = 0;
+    if (kind == 'd') res = liberasurecode_instance_destroy(desc);
+    else if (kind == 'q') res = liberasurecode_get_fragment_size(desc, 1000);
+    else if (kind == 'u') {
+        char **ed = NULL, **ep = NULL; uint64_t fl = 0;
+        res = liberasurecode_encode(desc, (char *)HDATA, 29, &ed, &ep, &fl);
+        if (res == 0) {
+            /* drop the first data fragment, decode from the rest */
+            char *fr[64]; int n = 0;
+            for (int i = 1; i < cf.k; i++) fr[n++] = ed[i];
+            for (int i = 0; i < cf.m; i++) fr[n++] = ep[i];
+            char *od = NULL; uint64_t ol = 0;
+            res = liberasurecode_decode(desc, fr, n, fl, 0, &od, &ol);
+            if (res == 0) {
+                if (ol != 29 || memcmp(od, HDATA, 29)) res = 1;
+                liberasurecode_decode_cleanup(desc, od);
+            }
+            liberasurecode_encode_cleanup(desc, ed, ep);
+        }
+    }
+    return res;
+}
+static struct { sem_t req, done; char kind; int desc; cfg_t cf; int res; int quit; } g_hw;
+static void *hist_worker(void *unused) {
+    (void)unused;
+    for (;;) { sem_wait(&g_hw.req); if (g_hw.quit) return NULL; g_hw.res = hist_do(g_hw.kind, g_hw.desc, g_hw.cf); sem_post(&g_hw.done); }
+}
+
 static void run_hist(void *va, FILE *out) {
     hist_t *h = va;
     int slot[SLOTS] = { -1, -1, -1, -1 };
     cfg_t scfg[SLOTS]; memset(scfg, 0, sizeof scfg);
     next_backend_desc = h->preset;
     int live[128], nlive = 0, viol = 0; cfg_t lcfg[128];
-    unsigned char data[29]; for (int i = 0; i < 29; i++) data[i] = (unsigned char)(i * 11 + 3);
+    pthread_t worker; int have_worker = 0;
     for (int o = 0; o < h->nops; o++) {
         char *op = h->ops[o];
         int s = op[1] - '0';
         int res = 0;
         if (op[0] == 'c' || op[0] == 'f') {
-            int be, k, m, hd;
-            sscanf(op + 3, "%d:%d:%d:%d", &be, &k, &m, &hd);
-            struct ec_args ar; memset(&ar, 0, sizeof ar); ar.k = k; ar.m = m; ar.hd = hd; ar.ct = CHKSUM_CRC32;
+            int be, k, m, hd, w = 0;
+            sscanf(op + 3, "%d:%d:%d:%d:%d", &be, &k, &m, &hd, &w);
+            struct ec_args ar; memset(&ar, 0, sizeof ar); ar.k = k; ar.m = m; ar.hd = hd; ar.w = w; ar.ct = CHKSUM_CRC32;
             res = liberasurecode_instance_create((ec_backend_id_t)be, &ar);
             if (res > 0) {
                 /* direct oracle: a descriptor that is still live is never handed out again */
@@ -334,35 +435,24 @@ static void run_hist(void *va, FILE *out) {
                 if (nlive < 128) { lcfg[nlive] = (cfg_t){ be, k, m, hd, 2 }; live[nlive++] = res; }
                 slot[s] = res; scfg[s] = (cfg_t){ be, k, m, hd, 2 };
             }
-        } else if (op[0] == 'd') {
-            res = liberasurecode_instance_destroy(slot[s]);
-            if (res == 0) for (int q = 0; q < nlive; q++) if (live[q] == slot[s]) { --nlive; live[q] = live[nlive]; lcfg[q] = lcfg[nlive]; break; }
-        } else if (op[0] == 'u') {
-            char **ed = NULL, **ep = NULL; uint64_t fl = 0;
+        } else if (strchr("duqDUQ", op[0])) {
+            char kind = (char)(op[0] | 0x20);
             /* the shape belongs to the descriptor, not to the slot: a stale handle may name a newer instance */
             for (int q = 0; q < nlive; q++) if (live[q] == slot[s]) scfg[s] = lcfg[q];
-            res = liberasurecode_encode(slot[s], (char *)data, 29, &ed, &ep, &fl);
-            if (res == 0) {
-                /* drop the first data fragment, decode from the rest */
-                char *fr[64]; int n = 0;
-                for (int i = 1; i < scfg[s].k; i++) fr[n++] = ed[i];
-                for (int i = 0; i < scfg[s].m; i++) fr[n++] = ep[i];
-                char *od = NULL; uint64_t ol = 0;
-                res = liberasurecode_decode(slot[s], fr, n, fl, 0, &od, &ol);
-                if (res == 0) {
-                    if (ol != 29 || memcmp(od, data, 29)) res = 1;
-                    liberasurecode_decode_cleanup(slot[s], od);
-                }
-                liberasurecode_encode_cleanup(slot[s], ed, ep);
+            if (op[0] & 0x20) res = hist_do(kind, slot[s], scfg[s]);
+            else {
+                if (!have_worker) { sem_init(&g_hw.req, 0, 0); sem_init(&g_hw.done, 0, 0); g_hw.quit = 0; pthread_create(&worker, NULL, hist_worker, NULL); have_worker = 1; }
+                g_hw.kind = kind; g_hw.desc = slot[s]; g_hw.cf = scfg[s];
+                sem_post(&g_hw.req); sem_wait(&g_hw.done); res = g_hw.res;
             }
-        } else if (op[0] == 'q') {
-            res = liberasurecode_get_fragment_size(slot[s], 1000);
+            if (kind == 'd' && res == 0) for (int q = 0; q < nlive; q++) if (live[q] == slot[s]) { --nlive; live[q] = live[nlive]; lcfg[q] = lcfg[nlive]; break; }
         } else if (op[0] == 'n') {
             next_backend_desc = atoi(op + 2); res = 0;
         }
         fprintf(out, "%s%d", o ? "," : "", res);
     }
     if (viol) fprintf(out, " !VIOL live descriptor handed out again");
+    if (have_worker) { g_hw.quit = 1; sem_post(&g_hw.req); pthread_join(worker, NULL); }
     /* leave nothing behind */
     for (int s = 0; s < SLOTS; s++) if (slot[s] > 0) liberasurecode_instance_destroy(slot[s]);
 }
@@ -381,23 +471,25 @@ static void hist_random_op(char *buf, int allow_fail) {
     int s = (int)rnd(SLOTS);
     switch (rnd(allow_fail ? 8 : 6)) {
     case 7: { static const int vals[] = { 0, 1, 2, 0x7fffffff, 0x7ffffffe, -1, 3 }; sprintf(buf, "n:%d", vals[rnd(7)]); } break;
-    case 0: case 1: { const int *sh = shapes[rnd(6)]; sprintf(buf, "c%d:%d:%d:%d:%d", s, sh[0], sh[1], sh[2], sh[3]); } break;
-    case 2: case 3: sprintf(buf, "d%d", s); break;
-    case 4: sprintf(buf, "u%d", s); break;
-    case 5: sprintf(buf, "q%d", s); break;
-    default: sprintf(buf, "f%d:3:4:4:3", s); break;
+    case 0: case 1: { const int *sh = shapes[rnd(6)]; static const int ws[] = { 8, 32, 64, 7, 16 };
+                      if (rnd(3)) sprintf(buf, "c%d:%d:%d:%d:%d", s, sh[0], sh[1], sh[2], sh[3]);
+                      else sprintf(buf, "c%d:%d:%d:%d:%d:%d", s, sh[0], sh[1], sh[2], sh[3], ws[rnd(sh[0] == 0 ? 2 : 5)]); } break;
+    case 2: case 3: sprintf(buf, "%c%d", rnd(4) ? 'd' : 'D', s); break;
+    case 4: sprintf(buf, "%c%d", rnd(3) ? 'u' : 'U', s); break;
+    case 5: sprintf(buf, "%c%d", rnd(3) ? 'q' : 'Q', s); break;
+    default: if (rnd(2)) sprintf(buf, "f%d:3:4:4:3", s); else sprintf(buf, "f%d:0:3:2:2:%d", s, rnd(2) ? 64 : 7); break;   /* refused: XOR shape / null word size */
     }
 }
 
 void suite_hist(int tier) {
     int presets[] = { 0, 5, 0x7ffffffd, 0x7ffffffe, 0x7fffffff, -5, -1 };
     /* bounded exhaustive over a small alphabet, depth 4 (quick) / 5 (thorough), 2 slots */
-    const char *alpha[] = { "c0:6:2:1:1", "c1:6:3:2:2", "c1:3:3:3:3", "d0", "d1", "u0", "u1", "f0:3:4:4:3" };
-    int na = 8, depth = tier ? 5 : 4;
+    const char *alpha[] = { "c0:6:2:1:1", "c1:6:3:2:2", "c1:3:3:3:3", "d0", "d1", "u0", "u1", "f0:3:4:4:3", "c0:6:4:2:2:8", "f1:0:3:2:2:64", "D0", "U0", "Q1" };
+    int na = 13, depth = tier ? 5 : 4;
     long total = 1; for (int i = 0; i < depth; i++) total *= na;
     for (long code = 0; code < total; code++) {
-        if (!tier && rnd(5) != 0) continue;
-        if (tier && rnd(3) != 0) continue;
+        if (!tier && rnd(12) != 0) continue;
+        if (tier && rnd(8) != 0) continue;
         hist_t h; h.nops = depth; h.preset = presets[rnd(7)];
         long c = code;
         for (int i = 0; i < depth; i++) { strcpy(h.ops[i], alpha[c % na]); c /= na; }
@@ -423,6 +515,44 @@ void suite_hist(int tier) {
             for (int i = 0; i < nlive; i++) sprintf(h.ops[h.nops++], "d%d", i);
             hist_emit(&h);
             stat_add("hist.collision_histories", 1);
+        }
+    }
+    /* equally shaped instances alive together, another shape created, one of the equals destroyed, a block of the
+       same size allocated again: the survivor must be untouched (private tables are per instance, shared ones counted) */
+    {
+        static const char *shp[] = { "6:4:2:2", "6:5:3:3", "6:3:5:5", "3:5:5:3", "0:3:2:2", "6:2:1:1" };
+        for (int a = 0; a < 6; a++) for (int b = 0; b < 6; b++) for (int third = 0; third < 6; third++) {
+            if (b == a) continue;
+            if (!tier && a >= 3 && rnd(3)) continue;
+            if (!tier && third != a && third != b && rnd(3)) continue;
+            for (int victim = 0; victim < 2; victim++) {
+                hist_t h; h.nops = 0; h.preset = 0;
+                sprintf(h.ops[h.nops++], "c0:%s", shp[a]); sprintf(h.ops[h.nops++], "c1:%s", shp[a]);
+                sprintf(h.ops[h.nops++], "u%d", 1 - victim);
+                sprintf(h.ops[h.nops++], "c2:%s", shp[b]);
+                sprintf(h.ops[h.nops++], "d%d", victim);
+                sprintf(h.ops[h.nops++], "c3:%s", shp[third]);
+                sprintf(h.ops[h.nops++], "u%d", 1 - victim); sprintf(h.ops[h.nops++], "u2"); sprintf(h.ops[h.nops++], "u3");
+                sprintf(h.ops[h.nops++], "d%d", 1 - victim); sprintf(h.ops[h.nops++], "u2"); sprintf(h.ops[h.nops++], "u3");
+                sprintf(h.ops[h.nops++], "d2"); sprintf(h.ops[h.nops++], "d3");
+                hist_emit(&h);
+                stat_add("hist.sharing_histories", 1);
+            }
+        }
+    }
+    /* a descriptor used on one thread, destroyed on the other, used again on the first — every combination */
+    {
+        static const char *shp[] = { "6:4:2:2", "3:5:5:3", "0:3:2:2" };
+        for (int sh = 0; sh < 3; sh++) for (int user = 0; user < 2; user++) for (int destroyer = 0; destroyer < 2; destroyer++) for (int probe = 0; probe < 2; probe++) {
+            hist_t h; h.nops = 0; h.preset = sh;
+            sprintf(h.ops[h.nops++], "c0:%s", shp[sh]); sprintf(h.ops[h.nops++], "c1:%s", shp[(sh + 1) % 3]);
+            sprintf(h.ops[h.nops++], "%c0", user ? (probe ? 'U' : 'Q') : (probe ? 'u' : 'q'));
+            sprintf(h.ops[h.nops++], "%c0", destroyer ? 'D' : 'd');
+            sprintf(h.ops[h.nops++], "%c0", user ? 'Q' : 'q'); sprintf(h.ops[h.nops++], "%c0", user ? 'U' : 'u'); sprintf(h.ops[h.nops++], "%c0", user ? 'D' : 'd');
+            sprintf(h.ops[h.nops++], "%c1", user ? 'U' : 'u'); sprintf(h.ops[h.nops++], "%c0", user ? 'q' : 'Q');
+            sprintf(h.ops[h.nops++], "c0:%s", shp[sh]); sprintf(h.ops[h.nops++], "%c0", user ? 'U' : 'u'); sprintf(h.ops[h.nops++], "d0"); sprintf(h.ops[h.nops++], "D1");
+            hist_emit(&h);
+            stat_add("hist.cross_thread_histories", 1);
         }
     }
     /* random long histories */
